@@ -54,7 +54,7 @@ def mcref_replay(v, pid, runs, entries, nshards=16, sample_every=0):
     return ncases, nruns, nident, obs
 
 
-def judge_and_classify(v, pid, obs_paths, tag, what):
+def judge_and_classify(v, pid, obs_paths, tag, what, classes=None):
     """Merges forwarded observations, lets TLC judge them, files violations."""
     trace = work(pid, tag + ".trace.ndjson")
     n = pipeline.merge_obs(obs_paths, trace)
@@ -69,7 +69,7 @@ def judge_and_classify(v, pid, obs_paths, tag, what):
     for res, verdicts in pipeline.split_and_judge(trace, f"{pid}-judge-{tag}", n):
         v.add_tlc(res, f"Judge_Expr[{tag}]")
         for case, (cls, verdict, entry) in verdicts.items():
-            if verdict == "ok":
+            if verdict == "ok" or (classes is not None and cls not in classes):
                 continue
             nbad += 1
             r = recs.get(case, {})
@@ -244,12 +244,13 @@ def c03(a):
 
 
 # ------------------------------------------------------------------------------------------------
-def file_verdicts(v, obs_path, verdicts, what, kind="text"):
-    """Turns non-ok judge verdicts into violations (loads the records lazily)."""
+def file_verdicts(v, obs_path, verdicts, what, kind="text", classes=None):
+    """Turns non-ok judge verdicts into violations (loads the records lazily).
+    classes: only verdicts on texts of these classes concern the property (None = all)."""
     recs = None
     n = 0
     for case, (cls, verdict, entry) in verdicts.items():
-        if verdict == "ok":
+        if verdict == "ok" or (classes is not None and cls not in classes):
             continue
         if recs is None:
             recs = {}
@@ -381,4 +382,74 @@ def c08(a):
     v.cov["distinct_nontrivial"] = ncases
     v.cov["exhaustive"] = True
     v.sample({"text": "f(1,g(2,x3))", "table": "T5c"})
+    return v.finish()
+
+
+def dmg_runs(tier):
+    if tier == "quick":
+        return [dict(table="T8", n=1, maxun=2, ns=1), dict(table="T8", n=2, maxun=1, ns=8), dict(table="T5", n=3, maxun=0, ns=8, wc=False)]
+    return [dict(table="T8", n=1, maxun=3, ns=1), dict(table="T8", n=2, maxun=2, ns=16), dict(table="T5", n=3, maxun=1, ns=16, wc=False),
+            dict(table="T3", n=4, maxun=0, ns=12, wc=False)]
+
+
+@register("C07")
+def c07(a):
+    v = Verdict("C07", a.tier, "model_checking")
+    what = "a malformed expression was accepted"
+    ents = ["flat", "flat_wo", "deep"]
+    jobs = []
+    for r in dmg_runs(a.tier):
+        for sh in range(r["ns"]):
+            tag = f"C07/mcdmg-{r['table']}-n{r['n']}-s{sh}"
+            cfg = work(tag + ".cfg")
+            write_cfg(cfg, {"T": ("<-", r["table"]), "NLeaves": r["n"], "MaxUn": r["maxun"], "WithConst": r.get("wc", True),
+                            "Shard": sh, "NShards": r["ns"], "Emit": True, "CallStack": True, "BumpGuard": True, "FoldRule": "local"},
+                      invariants=["SpecMust", "ModelRejects", "EmitCases"])
+            jobs.append(lambda tag=tag, cfg=cfg, r=r: (r["table"], tag) + pipeline.gen_replay_shard(
+                "MC_Dmg", cfg, tag, ["expr", "--entries", ",".join(ents)]))
+    obs, ncases, kinds = [], 0, {}
+    for tab, tag, res, summ, obsp in parallel(jobs):
+        if res.violated or res.error:
+            print(res.out[-3000:])
+            raise vlib.ToolError(f"MC_Dmg {tag}: {res.violated or res.error}: damage classes / front-end model inconsistent - spec bug")
+        v.add_tlc(res, tag)
+        ncases += summ["cases"]
+        v.cov["traces_validated_against_impl"] += summ["runs"]
+        v.cov["evaluations"] += summ["runs"]
+        obs.append((tab, obsp))
+    for tab in sorted({t for t, _ in obs}):
+        judge_and_classify(v, "C07", [p for t, p in obs if t == tab], f"dirA-{tab}", what, classes={"must"})
+    v.notes.append(f"direction A: {ncases} damaged texts (delete/insert one parenthesis at every position, append every binary operator, "
+                   f"extra operand beside every operand, illegal character at every position, blank texts) of every rendering "
+                   f"(minimal, fully parenthesised, call form) replayed through {ents}; expected outcome err")
+    # direction B: the same damages on random expressions over random tables and over the real float / value tables
+    n = 1500 if a.tier == "quick" else 20000
+    jobs = []
+    for fam, e in (("dmg-float", "parse_f64,parse_wo_f64,deep_f64,eval_str_f64,stmt,flat,deep"),
+                   ("dmg-val", "parse_val,stmt_val,flat,deep"), ("mutant", "flat,flat_wo,deep")):
+        for k in range(4):
+            tag = f"C07/fuzz-{fam}-{k}"
+            jobs.append(lambda tag=tag, fam=fam, e=e, k=k: (tag,) + pipeline.fuzz_replay(
+                tag, ["fuzz-expr", "--family", fam, "--n", str(n), "--stream", str(k)], ["--forward-all", "--entries", e]))
+    res = parallel(jobs)
+    good = []
+    for tag, summ, obsp in res:
+        if summ.get("crashed"):
+            v.violation({"pipeline": tag, "detail": summ}, f"{what}: the library aborted the recorder process in {tag}")
+        else:
+            good.append((tag, obsp))
+            v.cov["traces_validated_against_impl"] += summ["runs"]
+            v.cov["evaluations"] += summ["runs"]
+    for p, (r, verdicts) in parallel([(lambda t=t, p=p: (p, pipeline.judge_expr(p, t.replace("/", "-")))) for t, p in good], 8):
+        v.add_tlc(r, f"Judge_Expr[{os.path.basename(p)}]")
+        file_verdicts(v, p, verdicts, what, classes={"must"})
+        nmust = sum(1 for c in verdicts.values() if c[0] == "must")
+        v.cov["must_reject_texts_judged"] = v.cov.get("must_reject_texts_judged", 0) + nmust
+    v.notes.append("direction B: damaged random expressions over the real float and value tables through parse, parse_wo_compile, "
+                   "DeepEx::parse, eval_str, parse_val and the statement parsers; which texts must be rejected is decided by "
+                   "Grammar.Classify on the recorded text with the table mirrored from the implementation's make()")
+    v.cov["rule"] = "every single-point damage of every rendering of every tree in the bound; distinct by construction"
+    v.cov["distinct_nontrivial"] = ncases
+    v.cov["exhaustive"] = True
+    v.sample({"text": "x1 | ( 2", "dmg": "paren_deleted"})
     return v.finish()
